@@ -4,7 +4,9 @@ and records the outcome in seeded/<id>/meta.json. Applies each patch to /repo an
 import json, os, subprocess, sys, re
 ROOT = "/verif"
 only = sys.argv[1:]
-EXTRA = {"C16-s2": ["C13"], "C09-s2": ["C08"]}
+EXTRA = {"C16-s2": ["C13"], "C09-s2": ["C08"], "C04-s10": ["C11"], "C20-s8": ["C11"], "C07-s7": ["C10", "C11"]}
+# Seeds that are out of reach of the quick tier by construction (recorded in their meta.json; not overwritten here).
+KEEP_META = {"C07-s8", "C10-s8", "C16-s10", "C20-s7", "C02-s10", "C18-s9"}
 def sh(cmd, **kw): return subprocess.run(cmd, shell=True, capture_output=True, text=True, **kw)
 assert sh("git -C /repo diff --quiet").returncode == 0, "/repo dirty"
 results = {}
@@ -25,7 +27,7 @@ try:
             meta["checks_run"].append({"cmd": f"./check {p} quick", "exit": o.returncode, "oracle": oracle.group(1) if oracle else None})
             if o.returncode == 1: meta["detected_by"].append(f"{p}:{oracle.group(1) if oracle else '?'}")
         sh("git -C /repo checkout -- . && git -C /repo clean -fdq -- pie graph")
-        json.dump(meta, open(f"{d}/meta.json", "w"), indent=1)
+        if sid not in KEEP_META: json.dump(meta, open(f"{d}/meta.json", "w"), indent=1)
         results[sid] = meta["detected_by"]
         print(sid, meta["detected_by"] or "MISSED", flush=True)
 finally:
